@@ -27,6 +27,12 @@ CHECKS.update({
  'C08': ('symbolic execution of the real mask_dict_password over mapping shapes with a symbolic key string (identity-hashed) and symbolic string values; key-match predicate and value masking decided by z3',
          'Shapes (depth <= 2, width 2) and value kinds are configurations; what is symbolic is the key text (reference key in any letter case, embedded, near miss, arbitrary) and string values.'),
 })
+CHECKS.update({
+ 'C14': ('symbolic execution of the real parsers on symbolic strings (per-character code-point domains), unbounded symbolic ints and symbolic flags; results compared by z3 with reference conditions built directly over the characters',
+         'Strings up to 4 (thorough 6) characters over the words\' alphabet and up to 2 (3) over 0x00-0xFF; int values and bounds unbounded. is_uuid_like/generate_uuid are outside the claim (uuid internals not encoded).'),
+ 'C19': ('symbolic execution of the real split_path on symbolic paths; outcome compared with a reference splitter written from the statement',
+         'Paths up to 6 (thorough 8) characters over {/, a, space, .}; minsegs 1..4; maxsegs None,0,min-1..min+2; rest_with_last both. split_by_commas is outside the claim (pyparsing on the value itself is not encodable).'),
+})
 NA = {
 }
 def main():
